@@ -1,5 +1,10 @@
 package transport
 
+import (
+	"errors"
+	"net"
+)
+
 // C03 — every byte accepted by a write call is sent, in order, and the call
 // reports exactly the number of bytes it sent.
 
@@ -164,4 +169,52 @@ func VH_C03_queued_messages_are_returned_once_in_order() {
 		verifAssertBytesEq(got[:n1], m1, "C03: stream reads return the first message's bytes first, in order")
 		verifAssertBytesEq(got[n1:], m2, "C03: stream reads then return the second message's bytes, in order")
 	}
+}
+
+// A faithful network delivers what Write produced only if the receiver's
+// datagram buffer can hold the largest packet a writer may emit.
+//
+//verif:prop C03
+//verif:replay none
+//verif:bounds the receive loops of Server.Serve and Client.listen are run for one read on a fake socket that records the buffer it is handed
+//verif:cover server;client
+func VH_C03_receive_buffers_hold_the_largest_packet() {
+	largest := HeaderLen + SessionIDLen + CounterLen + MaxPlaintextSize + TagLen
+	if verifBool("server") {
+		u := &c03BufProbe{}
+		s := &Server{udpConn: u, sessions: map[SessionID]*SessionState{}, handshakes: map[string]*HandshakeState{}, closeDone: make(chan struct{}), stopCookieRotate: make(chan struct{})}
+		u.onRead = func() { s.state.Store(uint32(serverStateClosing)) }
+		close(s.closeDone)
+		// Serve starts its two workers with go statements (recorded, not run)
+		// and then waits; the first recorded worker is the receive loop
+		verifAssert(s.Serve() == nil, "C03: Serve starts")
+		verifAssert(verifRunGo("Serve$1"), "C03: the server's receive loop exists")
+		verifAssert(u.reads == 1 && u.bufLen >= largest, "C03: the server's receive buffer holds the largest packet a client Write can produce (header + counter + MaxPlaintextSize + tag)")
+		verifCover("server")
+		return
+	}
+	u := &c03BufProbe{}
+	c := &Client{underlyingConn: u, ss: sessState(1), closeDone: make(chan struct{})}
+	u.onRead = func() { c.state.Store(clientStateClosed) }
+	c.state.Store(clientStateOpen)
+	c.wg.Add(1)
+	c.listen()
+	verifAssert(u.reads >= 1 && u.bufLen >= largest, "C03: the client's receive buffer holds the largest packet a server Write can produce")
+	verifCover("client")
+}
+
+type c03BufProbe struct {
+	sessUDP
+	bufLen int
+	reads  int
+	onRead func()
+}
+
+func (p *c03BufProbe) ReadMsgUDP(b, oob []byte) (int, int, int, *net.UDPAddr, error) {
+	p.reads++
+	p.bufLen = len(b)
+	if p.onRead != nil {
+		p.onRead()
+	}
+	return 0, 0, 0, nil, errors.New("stop")
 }
